@@ -13,14 +13,14 @@ TECHNIQUE = ('property-based testing (Hypothesis): substitution-metamorphic '
              'placeholder run and runs with generated special strings, '
              'executed by ' + ('GNU Make + /bin/sh' if BACKEND == 'make' else
                                'the reference Ninja evaluator + /bin/sh'))
-RULE = ('One script template with 48 argument positions (command/cmds words, '
+RULE = ('One script template with 49 argument positions (command/cmds words, '
         'environment values of command/build_step/test/test_driver, nested '
         'test-driver children, compile/link options in list and string form, '
         'global options, a word given both globally and per target, options '
         'of multi-output steps (versioned library, yacc grammar), define '
         'values, include/library directory names, file arguments, the '
         'install prefix, CFLAGS/CPPFLAGS/LDFLAGS/LDLIBS/YFLAGS taken from the '
-        'environment); 3..48 '
+        'environment); 3..49 '
         'positions per case receive strings from an alphabet weighted towards '
         'Make-, sh- and Ninja-special characters, non-ASCII and a curated '
         'token list, one string in ten long (up to ~130 characters, with a '
